@@ -49,6 +49,9 @@ OPS_W = (
     + ["al", "rl", "av", "uf"] + ["newv", "adj", "bulk"] + ["flag"] * 3 + ["query"] * 5 + ["repickle"]
 )
 
+# coverage-guided extra engine (atheris): executions per fuzzer process, 16 processes
+FUZZ = dict(quick=0, thorough=6000)
+
 
 def budget(tier):
     if tier == "quick":
